@@ -311,6 +311,21 @@ func refPathMatch(p *gPath, path string) (bool, string) {
 	return false, ""
 }
 
+// refMatchKinds lists which of the entry's path matchers match the path.
+func refMatchKinds(p *gPath, path string) []string {
+	var k []string
+	if p.Path != "" && p.Path == path {
+		k = append(k, "exact")
+	}
+	if p.Prefix != "" && strings.HasPrefix(path, p.Prefix) {
+		k = append(k, "prefix")
+	}
+	if p.Regexp != "" && regexp.MustCompile(p.Regexp).MatchString(path) {
+		k = append(k, "regexp")
+	}
+	return k
+}
+
 func refHeaderGet(q *gReq, key string) string {
 	ck := http.CanonicalHeaderKey(key)
 	for _, kv := range q.Headers {
@@ -396,6 +411,15 @@ func refRoute(s *gSpec, q *gReq, missing map[string]bool) refDecision {
 			}
 			path := q.Path
 			if p.Rewrite != "" {
+				// an entry may carry several path matchers: the rewrite follows the matcher that
+				// matched; when several match at once the property does not say which one
+				// governs, so the rewritten path is then not judged ("ambiguous")
+				kinds := refMatchKinds(p, q.Path)
+				if len(kinds) == 1 {
+					pk = kinds[0]
+				} else {
+					pk = "ambiguous"
+				}
 				switch pk {
 				case "exact":
 					path = p.Rewrite
@@ -504,12 +528,16 @@ func genPath(rng *rand.Rand, o genOpts, n *int) gPath {
 		default:
 			p.Rewrite = pick(rng, []string{"/r", "/r/", "/"})
 		}
-	} else if k < 9 && rng.Intn(8) == 0 {
-		// two matchers, no rewrite
+	}
+	if k < 9 && rng.Intn(6) == 0 {
+		// a second (and sometimes third) matcher on the same entry, with or without rewrite
 		if p.Path == "" {
 			p.Path = pick(rng, genPaths)
 		} else {
 			p.Prefix = pick(rng, genPrefixes)
+		}
+		if p.Regexp == "" && rng.Intn(2) == 0 {
+			p.Regexp = pick(rng, genPathRegexps)
 		}
 	}
 	if rng.Intn(2) == 0 {
